@@ -6,7 +6,7 @@
     and of the range coder (RcAbs/RcDec/RcEnc/RcRoundtrip.v): every bit
     sequence, under every context-selection program, with the adaptive
     probabilities, survives encode-then-decode. *)
-From XZ Require Import Base Bcj BcjInst BcjProofs BcjProofs2 BcjProofs3 BcjProofs4 Xz VliProofs Bound Lzma RcAbs RcDec RcEnc RcRoundtrip RcCodes LzmaEnc LzmaSym LzmaRun.
+From XZ Require Import Base Bcj BcjInst BcjProofs BcjProofs2 BcjProofs3 BcjProofs4 BcjProofs5 Xz VliProofs Bound Lzma RcAbs RcDec RcEnc RcRoundtrip RcCodes LzmaEnc LzmaSym LzmaRun.
 Local Open Scope N_scope.
 
 Theorem delta_filter_lossless : forall dist l, bytes_ok l -> delta_decode dist (delta_encode dist l) = l.
@@ -42,6 +42,11 @@ Theorem ia64_filter_lossless : forall start l, aligned16 (w32 start) -> bytes_ok
   fst (ia64_code_g false start (fst (ia64_code_g true start l))) = l.
 Proof. intros start l. unfold ia64_code_g. apply ia64_roundtrip. Qed.
 Print Assumptions ia64_filter_lossless.
+
+Theorem x86_filter_lossless : forall start pp l, bytes_ok l -> pp < 4294967296 -> 5 + lenN l < 4294967296 ->
+  xo (x86_code_g false 0 pp start (xo (x86_code_g true 0 pp start l))) = l.
+Proof. exact x86_roundtrip. Qed.
+Print Assumptions x86_filter_lossless.
 
 Theorem integer_fields_lossless : forall v rest, v <= VLI_MAX -> vli_decode (vli_encode v ++ rest) = Some (v, rest).
 Proof. exact vli_decode_encode. Qed.
